@@ -63,11 +63,19 @@ impl World {
 }
 
 pub fn build_world(case: &Case) -> World {
-  let core = ordkit::regtest_core();
+  let network = network_of(case.sched.flags);
+  let padded = case.sched.flags & FLAG_PADDED != 0;
+  let core = mockcore::builder().network(network).build();
   let dir = scratch_dir();
-  let real = realise(&case.chain, &core);
-  mockcore::VERIF_HEADERS.store(if case.sched.headers_far { 1_000_000 } else { -1 }, std::sync::atomic::Ordering::SeqCst);
+  let real = realise(&case.chain, case.sched.flags);
+  // a padded chain is always driven with far-ahead headers (no savepoint every 10 blocks over
+  // 112k blocks) and a large commit interval; its wire schedule says "not far" so that the model
+  // commits per block (generated padded chains are outside the schedule dependent known class)
+  mockcore::VERIF_HEADERS.store(if case.sched.headers_far || padded { 1_000_000 } else { -1 }, std::sync::atomic::Ordering::SeqCst);
   let mut flags: Vec<String> = Vec::new();
+  if network == bitcoin::Network::Signet {
+    flags.push("--signet".into());
+  }
   if case.sched.flags & 4 == 0 {
     flags.push("--index-sats".into());
   }
@@ -78,12 +86,18 @@ pub fn build_world(case: &Case) -> World {
     flags.push("--no-index-inscriptions".into());
   }
   flags.push("--commit-interval".into());
-  flags.push(case.sched.commit_interval.max(1).to_string());
+  flags.push(if padded { case.sched.commit_interval.max(5000) } else { case.sched.commit_interval.max(1) }.to_string());
   let refs: Vec<&str> = flags.iter().map(|s| s.as_str()).collect();
   let index = ordkit::open_index(&core, dir.path(), &refs);
   // install blocks up to each scheduled height, update, continue
   let mut installed = 1usize; // genesis is there
-  let mut stops: Vec<usize> = case.sched.updates.iter().map(|h| (*h as usize).min(real.blocks.len())).collect();
+  let offset = if padded { PAD } else { 0 };
+  let mut stops: Vec<usize> = case
+    .sched
+    .updates
+    .iter()
+    .map(|h| (if *h <= 1 { *h as usize } else { *h as usize + offset }).min(real.blocks.len()))
+    .collect();
   stops.push(real.blocks.len());
   for stop in stops {
     if stop <= installed && stop != real.blocks.len() {
@@ -288,6 +302,9 @@ fn run_c17(line: &Line) -> Outcome {
     if e.outpoint == bitcoin::OutPoint::null() {
       continue;
     }
+    if w.id_of(&e.outpoint.txid) >= PAD_ID_BASE {
+      continue;
+    }
     let sid = script_id(e.script_pubkey.as_deref().unwrap_or(&[]), &w.real);
     ents.push((w.op(&e.outpoint), e.value, sid));
   }
@@ -307,6 +324,9 @@ fn run_c17(line: &Line) -> Outcome {
         continue;
       }
       let (id, vout) = w.op(o);
+      if id >= PAD_ID_BASE {
+        continue;
+      }
       pairs.push((sid, id, vout));
     }
   }
